@@ -33,6 +33,8 @@ pub struct Profile {
     pub flush_heavy: bool,
     /// percent of runs that use an eager-worker schedule (worker runs almost immediately)
     pub eager_worker_pct: u64,
+    /// occasionally a payload of 70-150 KB (more than the 64 KB / 1 KB internal buffers)
+    pub huge_payloads: bool,
 }
 
 #[derive(Clone, Copy, Debug, PartialEq, Eq)]
@@ -63,6 +65,7 @@ impl Profile {
             big_payloads: true,
             flush_heavy: false,
             eager_worker_pct: 15,
+            huge_payloads: false,
         }
     }
 }
@@ -70,7 +73,7 @@ impl Profile {
 pub fn gen_cfg(rng: &mut Rng, p: &Profile) -> Cfg {
     let small = rng.chance(p.small_chunks_pct);
     let chunk_max_records = if small {
-        Some(*rng.pick(&[0usize, 1, 2, 2, 3, 3, 4, 5, 5, 8, 13]))
+        Some(*rng.pick(&[0usize, 1, 2, 2, 3, 3, 4, 5, 5, 8, 13, 20, 40]))
     } else {
         *rng.pick(&[None, Some(1024 * 1024)])
     };
@@ -83,7 +86,8 @@ pub fn gen_cfg(rng: &mut Rng, p: &Profile) -> Cfg {
         5 => Some(4000),
         _ => None,
     };
-    let read_buffer_size = match rng.below(8) {
+    let read_buffer_size = match rng.below(9) {
+        8 => Some(0),
         0 => Some(1),
         1 => Some(2),
         2 => Some(7),
@@ -130,6 +134,7 @@ struct G<'a> {
     lower_term: bool,
     used_lower_term: bool,
     big: bool,
+    huge: bool,
     /// max term among entries removed by the last truncation, until the next append
     removed_term: Option<u64>,
 }
@@ -137,6 +142,9 @@ struct G<'a> {
 impl G<'_> {
     fn pay(&mut self) -> Pay {
         self.next_tag += 1;
+        if self.huge && self.rng.chance(4) {
+            return Pay { tag: self.next_tag, fill: self.rng.range(70_000, 150_000) as u32, empty: false };
+        }
         let r = self.rng.below(100);
         let fill = if r < 8 {
             return Pay { tag: self.next_tag, fill: 0, empty: true };
@@ -456,6 +464,15 @@ pub fn gen_faults(rng: &mut Rng, mode: FaultMode, est_calls: u32) -> Vec<Fault> 
             let effect = if rng.chance(50) { Effect::Short } else { Effect::Errno(libc::EINTR) };
             out.push(Fault { call, nth: rng.below(span as u64) as u32, effect, sticky: false });
         }
+        // slow disk: some calls take simulated time (matters only to code with deadlines)
+        for _ in 0..rng.range(1, 4) {
+            let call = *rng.pick(&[Call::Unlink, Call::Unlink, Call::Fdatasync, Call::Write, Call::Create]);
+            let span = match call {
+                Call::Unlink | Call::Create => (est_calls / 3).max(2),
+                _ => est_calls.max(4),
+            };
+            out.push(Fault { call, nth: rng.below(span as u64) as u32, effect: Effect::Delay(*rng.pick(&[5u32, 200, 1500, 5000, 60_000])), sticky: rng.chance(30) });
+        }
         return out;
     }
     let n = *rng.pick(&[1u64, 1, 1, 2, 2, 3]);
@@ -517,7 +534,7 @@ pub fn gen_spec(prop: &str, run_seed: u64, p: &Profile) -> Spec {
     let w_flush_none = w(&mut rng, &[0, 0, 1]);
     let w_read = w(&mut rng, &[0, 1, 3]);
     let w_stat = w(&mut rng, &[0, 1]);
-    let w_dump = w(&mut rng, &[0, 0, 1]);
+    let w_dump = if p.readers { w(&mut rng, &[1, 2, 3]) } else { w(&mut rng, &[0, 0, 1]) };
     let w_restart = if p.restarts { w(&mut rng, &[1, 2, 3]) } else { 0 };
     let w_race = if p.race_restart { w(&mut rng, &[1, 2]) } else { 0 };
     let w_rej = if p.rejected { w(&mut rng, &[2, 4, 6]) } else { 0 };
@@ -532,7 +549,7 @@ pub fn gen_spec(prop: &str, run_seed: u64, p: &Profile) -> Spec {
     ];
 
     let lower_term = p.lower_term && rng.chance(40);
-    let mut g = G { rng: &mut rng, m: Model::default(), next_tag: 0, cur_term: 1, max_term: 1, lower_term, used_lower_term: false, big: p.big_payloads, removed_term: None };
+    let mut g = G { rng: &mut rng, m: Model::default(), next_tag: 0, cur_term: 1, max_term: 1, lower_term, used_lower_term: false, big: p.big_payloads, huge: p.huge_payloads, removed_term: None };
     let mut ops = vec![];
     while (ops.len() as u64) < nops {
         let k = g.rng.weighted(&weights);
@@ -553,7 +570,12 @@ pub fn gen_spec(prop: &str, run_seed: u64, p: &Profile) -> Spec {
                 Some(if g.rng.chance(25) { Op::Read(0, u64::MAX) } else { Op::Read(a, b) })
             }
             9 => Some(Op::Stat),
-            10 => Some(if g.rng.chance(50) { Op::Dump } else { Op::DumpIter }),
+            10 => Some(match g.rng.below(4) {
+                0 => Op::Dump,
+                1 => Op::DumpIter,
+                2 => Op::Snapshot,
+                _ => Op::SnapshotIter,
+            }),
             11 => Some(Op::Restart(gen_cfg(g.rng, p))),
             12 => Some(Op::RaceRestart(gen_cfg(g.rng, p))),
             13 => g.gen_rejected(),
@@ -598,7 +620,7 @@ pub fn gen_spec(prop: &str, run_seed: u64, p: &Profile) -> Spec {
 /// a clean restart, more appends, flush+ack. Monotone terms, starting from `model`.
 pub fn gen_continuation(rng: &mut Rng, model: &Model) -> Vec<Op> {
     let max_term = model.entries.values().map(|e| e.0 .0).max().unwrap_or(0).max(model.st.last.map(|l| l.0).unwrap_or(0)).max(model.st.purged.map(|l| l.0).unwrap_or(0));
-    let mut g = G { rng, m: model.clone(), next_tag: 900_000, cur_term: max_term.saturating_add(1), max_term: max_term.saturating_add(1), lower_term: false, used_lower_term: false, big: false, removed_term: None };
+    let mut g = G { rng, m: model.clone(), next_tag: 900_000, cur_term: max_term.saturating_add(1), max_term: max_term.saturating_add(1), lower_term: false, used_lower_term: false, big: false, huge: false, removed_term: None };
     let mut ops = vec![];
     ops.push(g.gen_append());
     if g.rng.chance(50) {
